@@ -132,15 +132,25 @@ fn writer_body(sc: &Scen) {
             })
         })
         .collect();
-    // the writer: every write must return (the engine reports a deadlock otherwise)
-    for op in &sc.writer {
-        let e = world.apply_write(&prog, op);
-        let o = sess.apply(op);
-        if let (Some(Expect::Unit), Out::Panic(p)) = (&e, &o) {
-            viol(&format!("writer-panic:{}", sc.name), format!("write {op:?} panicked: {p:?}"));
-            return;
+    // The writer runs on its own thread, spawned last: in the default schedule the readers run
+    // first, and a single preemption of a reader lets the write land at any point of the reader's
+    // computation. Every write must return (the engine reports a deadlock otherwise).
+    let writer_ops = sc.writer.clone();
+    let prog2 = prog.clone();
+    let mut world_w = world.clone();
+    let writer = shuttle::thread::spawn(move || {
+        let mut sess = sess;
+        let mut bad: Option<String> = None;
+        for op in &writer_ops {
+            let e = world_w.apply_write(&prog2, op);
+            let o = sess.apply(op);
+            if let (Some(Expect::Unit), Out::Panic(p)) = (&e, &o) {
+                bad = Some(format!("write {op:?} panicked: {p:?}"));
+                break;
+            }
         }
-    }
+        (sess, world_w, bad)
+    });
     let mut outs: Vec<Vec<Out>> = Vec::new();
     for h in handles {
         match h.join() {
@@ -150,6 +160,18 @@ fn writer_body(sc: &Scen) {
                 return;
             }
         }
+    }
+    let (mut sess, world_after, bad) = match writer.join() {
+        Ok(x) => x,
+        Err(_) => {
+            viol(&format!("thread-panic:{}", sc.name), "the writer thread panicked outside a write".into());
+            return;
+        }
+    };
+    world = world_after;
+    if let Some(b) = bad {
+        viol(&format!("writer-panic:{}", sc.name), b);
+        return;
     }
     let log = sess.db.cx_arc().take_log();
     outcome(format!("{}: {}", sc.name, outs_class(&outs)));
